@@ -1,7 +1,7 @@
 // ---- spec/control_sem.rs : hub — documented control-flow semantics of MAST execution ------------
 // Source: docs/src/user_docs/assembly/flow_control.md, docs/src/design/programs.md,
 // docs/src/design/decoder/main.md.  The semantics is the LEAST relation closed under the rules
-// below.  `exec_rel` / `iter_rel` / `steps_rel` are uninterpreted; the rules are introduction
+// below.  `exec_rel` / `iter_rel` (and `rows_rel` in span_sem.rs) are uninterpreted; the rules are introduction
 // axioms.  The executors prove `exec_rel(block, before, after, trace)` for every successful run,
 // i.e. membership in every relation closed under the rules, hence in the least one.  (No rule lets
 // a split take the branch the condition does not select, or a loop continue on anything but 1.)
@@ -19,9 +19,6 @@ pub open spec fn drop_tick(p: PState) -> PState {
 pub uninterp spec fn exec_rel(b: CodeBlock, p0: PState, p1: PState, tr: Seq<Operation>) -> bool;
 /// iterations of a loop body: starts with a body execution, ends when the body leaves 0 on top
 pub uninterp spec fn iter_rel(body: CodeBlock, p0: PState, p1: PState, tr: Seq<Operation>) -> bool;
-/// straight-line execution of a sequence of (non-control) operations
-pub uninterp spec fn steps_rel(ops: Seq<Operation>, p0: PState, p1: PState) -> bool;
-
 /// one user operation takes exactly one cycle; its effect is op_rel whenever the documented
 /// operand precondition holds ("undefined otherwise")
 pub open spec fn step_ok(op: Operation, p0: PState, p1: PState) -> bool {
@@ -29,14 +26,6 @@ pub open spec fn step_ok(op: Operation, p0: PState, p1: PState) -> bool {
     &&& !is_control(op)
     &&& (op_pre(op, p0.s) ==> op_rel(op, p0.s, p0.g, p1.s, p1.g))
 }
-
-#[verifier::external_body]
-pub proof fn rule_steps_nil(p: PState)
-    ensures steps_rel(Seq::<Operation>::empty(), p, p) {}
-#[verifier::external_body]
-pub proof fn rule_steps_snoc(ops: Seq<Operation>, op: Operation, p0: PState, pm: PState, p1: PState)
-    requires steps_rel(ops, p0, pm), step_ok(op, pm, p1)
-    ensures steps_rel(ops.push(op), p0, p1) {}
 
 #[verifier::external_body]
 pub proof fn rule_join(j: Join, p0: PState, p1: PState, p2: PState, t1: Seq<Operation>, t2: Seq<Operation>)
